@@ -79,6 +79,18 @@ check('C04', 'proof',
       'Trusted: Coq kernel, extraction + driver, harness; lxml parses the XML on both sides (same parser options); int() corner syntax of header sizes outside ASCII digits is not modelled.',
       'Coq proof (stable-sort uniqueness, DFS refinement) + exhaustive comparison over all bundled sets + generated sets', 'DESIGN.md §6 C04')
 
+check('C01', 'proof',
+      'Coq theorems (closed): a Feistel network is inverted by reversing the round keys for every round function/key/block (hence Blowfish); '
+      'XOR of signed 64-bit integers is XOR of the bit patterns and stays in range (the code chains with struct q values); the byte-level '
+      'chained decryption with the `if previous_block:` shortcut inverts the writer for every block list; the whole reader inverts the '
+      'independent writer for every whitelisted extension, block list (empty blocks -> None), prefix and padded stream; bad extension / bad '
+      'magic / short file give ValueError before anything else is read; the progress-reporting reader used for the tie is proved equal to the '
+      'plain one. Tie: keys/magic/whitelist regenerated from the source and proved equal to the model\'s; the Coq Blowfish (pi-derived tables) '
+      'against Cryptodome block for block; containers written by the extracted writer (all lengths 0..64, levels x strategies, keys, blocks) '
+      'read by ReplayReader and by the extracted reader; malformed containers; real recordings read by both and re-wrapped; raw dump.',
+      'Trusted: Coq kernel, extraction + driver, harness; zlib and json are oracles applied identically on both sides (inflate(deflate z ++ pad) = z is assumed of zlib); Cryptodome is replaced by the Coq Blowfish and compared with it.',
+      'Coq proof (Feistel/chain/container round-trip) + generated instance theorems + differential run', 'DESIGN.md §6 C01')
+
 NOT_YET = {}
 ALL = ['C%02d' % i for i in range(1, 20)]
 def main():
